@@ -6,7 +6,7 @@
   *which element objects* the code constructs, copies, assigns, destroys and relinks, in the
   code's order, and where they live:
 
-    * node containers keep their items in blocks of 4 slots, a LIFO free list of slots and the
+    * node containers keep their items in blocks of N slots (N per kind: `Per`, read from the sources), a LIFO free list of slots and the
       list of blocks (`List.hpp:insert`, `HashMap.hpp:insert`, `PoolList.hpp:allocateFreeItem`, ...);
       an element never changes its slot; removal pushes the slot on the free list;
     * Array keeps its elements in one storage block `(storage, index)`; `reserve` moves them
@@ -647,11 +647,14 @@ def createAll : List Micro :=
 def destroyAll : List Micro :=
   [.aDestroy 0, .aDestroy 1] ++ nodeVars.map .destroy
 
-def empty : State :=
-  { next := 0, mem := fun _ => none, blk := fun _ => none, nodes := fun _ => {}, arrs := fun _ => {}, log := [] }
+def empty (p : Per) : State :=
+  { per := p, next := 0, mem := fun _ => none, blk := fun _ => none, nodes := fun _ => {}, arrs := fun _ => {}, log := [] }
 
-/-- all sixteen variables default-constructed -/
-def init : State := (execAll empty createAll).getD empty
+/-- all sixteen variables default-constructed (for a table p of items per block) -/
+def init (p : Per) : State := (execAll (empty p) createAll).getD (empty p)
+
+/-- four items per block for every kind (the value in the pinned sources; used in examples) -/
+def per4 : Per := ⟨fun _ => 4, fun _ => by decide⟩
 
 def finish (st : State) : State := (execAll st destroyAll).getD st
 
